@@ -84,6 +84,11 @@ static int loop_start(m_ctx_t *c, int max_events) {
 }
 
 static uint8_t loop_stop(m_ctx_t *c) {
+    /*
+     * The context is idle from now on: a callback run by the final flush may
+     * deregister the last module, thus releasing the context. Keep it alive until we are done.
+     */
+    m_mem_ref(c);
     c->state = M_CTX_IDLE;
     
     /* Publish loop stopped system message */
@@ -121,6 +126,7 @@ static uint8_t loop_stop(m_ctx_t *c) {
     if (m_map_len(c->modules) == 0 && !(c->flags & M_CTX_PERSIST)) {
         m_ctx_deregister();
     }
+    m_mem_unref(c);
     return ret;
 }
 
